@@ -60,17 +60,22 @@ fn few_conditionals(ps: &api::PolicySet) -> bool {
     n <= 10
 }
 
+/// diagnostics per result that get the full graphical rendering
+const RENDER_CAP: usize = 40;
+
 fn validate(fx: &Fx, ps: &api::PolicySet, t: &mut Tally) {
     for mode in [api::ValidationMode::Strict, api::ValidationMode::Permissive] {
         t.stage("validate");
         let res = fx.validator.validate(ps, mode);
         let _ = res.validation_passed();
-        for e in res.validation_errors() {
-            render_ref(e, t);
+        // every diagnostic is printed plainly; the graphical rendering (which copies the whole source line per diagnostic, so
+        // its cost is |diagnostics| x |source| and belongs to this harness, not to the entry point) only for the first few
+        for (i, e) in res.validation_errors().enumerate() {
+            if i < RENDER_CAP { render_ref(e, t); } else { let _ = e.to_string(); t.c("render.validation_errors_plain_only"); }
             t.c("render.validation_errors");
         }
-        for w in res.validation_warnings() {
-            render_ref(w, t);
+        for (i, w) in res.validation_warnings().enumerate() {
+            if i < RENDER_CAP { render_ref(w, t); } else { let _ = w.to_string(); }
             t.c("render.validation_warnings");
         }
         let _ = format!("{res}");
@@ -79,8 +84,8 @@ fn validate(fx: &Fx, ps: &api::PolicySet, t: &mut Tally) {
     if few_conditionals(ps) {
         t.stage("validate_level");
         let res = fx.validator.validate_with_level(ps, api::ValidationMode::Strict, 1);
-        for e in res.validation_errors() {
-            render_ref(e, t);
+        for (i, e) in res.validation_errors().enumerate() {
+            if i < RENDER_CAP { render_ref(e, t); } else { let _ = e.to_string(); }
         }
     } else {
         t.c("level_validation_skipped_many_conditionals");
